@@ -29,30 +29,86 @@ type ethTree struct {
 	ByRoot map[string]string // hex root -> root name
 }
 
+// refBaseFee is EIP-1559 written down independently of the code under test.
+func refBaseFee(parentBase, parentLimit, parentUsed uint64) uint64 {
+	target := parentLimit / 2
+	switch {
+	case parentUsed == target:
+		return parentBase
+	case parentUsed > target:
+		d := parentBase * (parentUsed - target) / target / 8
+		if d < 1 {
+			d = 1
+		}
+		return parentBase + d
+	default:
+		d := parentBase * (target - parentUsed) / target / 8
+		if d > parentBase {
+			return 0
+		}
+		return parentBase - d
+	}
+}
+
+// refGasLimitOK: |limit - parentLimit| < parentLimit/1024 and limit >= 5000
+func refGasLimitOK(parentLimit, limit uint64) bool {
+	d := int64(parentLimit) - int64(limit)
+	if d < 0 {
+		d = -d
+	}
+	return uint64(d) < parentLimit/1024 && limit >= 5000
+}
+
 func newEthTree(baseTime uint64) *ethTree {
 	t := &ethTree{
-		Parent: map[string]string{"a1": "g", "a2": "a1", "a3": "a2", "b1": "g", "b2": "b1", "c2": "b1", "m1": "g", "a4": "a3", "b3": "b2", "c3": "c2", "d3": "c2"},
-		Height: map[string]uint64{"g": 0, "a1": 1, "a2": 2, "a3": 3, "b1": 1, "b2": 2, "c2": 2, "m1": 1, "a4": 4, "b3": 3, "c3": 3, "d3": 3},
-		Root:   map[string]string{"g": "rg", "a1": "ra1", "a2": "ra2", "a3": "ra3", "b1": "rb1", "b2": "rb2", "c2": "rb2", "m1": "rm1", "a4": "ra4", "b3": "rb3", "c3": "rc3", "d3": "rc3"},
-		Valid:  map[string]bool{"a1": true, "a2": true, "a3": true, "b1": true, "b2": true, "c2": true, "m1": false, "a4": true, "b3": true, "c3": true, "d3": true},
-		Hdr:    map[string]*ethtypes.Header{}, ByHash: map[common.Hash]string{}, ByRoot: map[string]string{},
+		Parent: map[string]string{"a1": "g", "a2": "a1", "a3": "a2", "b1": "g", "b2": "b1", "c2": "b1", "m1": "g", "a4": "a3", "b3": "b2", "c3": "c2", "d3": "c2",
+			"n2": "a1", "p2": "b1", "k1": "g", "l1": "g"},
+		Height: map[string]uint64{"g": 0, "a1": 1, "a2": 2, "a3": 3, "b1": 1, "b2": 2, "c2": 2, "m1": 1, "a4": 4, "b3": 3, "c3": 3, "d3": 3, "n2": 2, "p2": 2, "k1": 1, "l1": 1},
+		Root: map[string]string{"g": "rg", "a1": "ra1", "a2": "ra2", "a3": "ra3", "b1": "rb1", "b2": "rb2", "c2": "rb2", "m1": "rm1", "a4": "ra4", "b3": "rb3", "c3": "rc3", "d3": "rc3",
+			"n2": "rn2", "p2": "rp2", "k1": "rk1", "l1": "rl1"},
+		Valid: map[string]bool{"a1": true, "a2": true, "a3": true, "b1": true, "b2": true, "c2": true, "m1": false, "a4": true, "b3": true, "c3": true, "d3": true,
+			"n2": false, "p2": false, "k1": false, "l1": true},
+		Hdr: map[string]*ethtypes.Header{}, ByHash: map[common.Hash]string{}, ByRoot: map[string]string{},
 	}
-	order := []string{"g", "a1", "a2", "a3", "a4", "b1", "b2", "b3", "c2", "c3", "d3", "m1"}
+	// gas used: a1 below the target (base fee of its children falls by a delta that rounds to zero), b1 above it
+	// (base fee of its children rises by at least one); everything else exactly at the target
+	used := map[string]uint64{"a1": 10_000_000, "b1": 20_000_000}
+	// mutants: n2 = child of a1 with a base fee one too low, p2 = child of b1 that keeps the base fee,
+	// k1 = gas limit raised by exactly parent/1024 (one too much), l1 = raised by parent/1024-1 (allowed), m1 = timestamp
+	baseOff := map[string]int64{"n2": -1, "p2": -1}
+	limitOf := map[string]uint64{"k1": 30_000_000 + 30_000_000/1024, "l1": 30_000_000 + 30_000_000/1024 - 1}
+	order := []string{"g", "a1", "a2", "a3", "a4", "b1", "b2", "b3", "c2", "c3", "d3", "m1", "n2", "p2", "k1", "l1"}
 	for _, id := range order {
 		root := make([]byte, 32)
 		copy(root, []byte(t.Root[id]))
 		t.ByRoot[hex.EncodeToString(root)] = t.Root[id]
+		gu := uint64(15_000_000)
+		if u, ok := used[id]; ok {
+			gu = u
+		}
 		h := &ethtypes.Header{
 			UncleHash: make([]byte, 32), Coinbase: common.BytesToAddress([]byte(id)).Bytes(), Root: root, TxHash: make([]byte, 32), ReceiptHash: make([]byte, 32),
 			Bloom: make([]byte, 256), Difficulty: big.NewInt(1).Bytes(), Height: clienttypes.NewHeight(0, 100+t.Height[id]),
-			GasLimit: 30_000_000, GasUsed: 15_000_000, Time: baseTime + 10*t.Height[id], Extra: []byte(id), MixDigest: make([]byte, 32),
-			BaseFee: big.NewInt(1000).Bytes(), ParentHash: make([]byte, 32),
+			GasLimit: 30_000_000, GasUsed: gu, Time: baseTime + 10*t.Height[id], Extra: []byte(id), MixDigest: make([]byte, 32),
+			BaseFee: big.NewInt(7).Bytes(), ParentHash: make([]byte, 32),
 		}
 		if id != "g" {
-			ph := t.Hdr[t.Parent[id]].Hash()
+			par := t.Hdr[t.Parent[id]]
+			ph := par.Hash()
 			h.ParentHash = ph.Bytes()
-			if !t.Valid[id] {
-				h.Time = t.Hdr[t.Parent[id]].Time // not later than the parent: breaks the timestamp rule
+			if l, ok := limitOf[id]; ok {
+				h.GasLimit = l
+				h.GasUsed = l / 2
+			}
+			want := refBaseFee(new(big.Int).SetBytes(par.BaseFee).Uint64(), par.GasLimit, par.GasUsed)
+			h.BaseFee = big.NewInt(int64(want) + baseOff[id]).Bytes()
+			if id == "m1" {
+				h.Time = par.Time // not later than the parent: breaks the timestamp rule
+			}
+			// self-check of the universe: the flag the specification carries is what the reference rules say
+			ok := h.Time > par.Time && baseOff[id] == 0 && refGasLimitOK(par.GasLimit, h.GasLimit)
+			if ok != t.Valid[id] {
+				panic("header universe inconsistent for " + id)
 			}
 		}
 		t.Hdr[id] = h
